@@ -555,6 +555,12 @@ func (g *Gen) loopWriteSet(h *ssa.BasicBlock) (map[string]bool, bool) {
 			case *ssa.Send:
 				ws["ChanN"] = true
 				ws["ChanV"] = true
+			case *ssa.Next:
+				if r, ok := x.Iter.(*ssa.Range); ok {
+					if mt, ok := r.X.Type().Underlying().(*types.Map); ok {
+						ws[mapHeapName(mt, "vis")] = true
+					}
+				}
 			case ssa.CallInstruction:
 				names, a := g.calleeWriteHeaps(x.Common())
 				if a {
@@ -719,20 +725,15 @@ func (g *Gen) instr(in ssa.Instruction) {
 	case *ssa.MapUpdate:
 		g.mapUpdate(x)
 	case *ssa.Next:
-		// iteration over map/string: arbitrary element
-		tt := x.Type().(*types.Tuple)
-		var tup []Val
-		for i := 0; i < tt.Len(); i++ {
-			if _, inv := tt.At(i).Type().(*types.Basic); inv && tt.At(i).Type().(*types.Basic).Kind() == types.Invalid {
-				tup = append(tup, Val{T: "0", S: "Int"})
-				continue
-			}
-			v := g.freshVal("next", tt.At(i).Type())
-			g.assume(g.typeInv(v, g.st))
-			tup = append(tup, v)
-		}
-		g.vals[x] = Val{Tup: tup}
+		g.next(x)
 	case *ssa.Range:
+		// map iteration: ghost set of the keys already produced (reset when the
+		// iteration starts; one iteration per map at a time)
+		if mt, ok := x.X.Type().Underlying().(*types.Map); ok {
+			m := g.val(x.X)
+			hn, hs := mapHeapName(mt, "vis"), g.mapHasSort(mt)
+			g.setHeap(g.st, hn, hs, sx("store", g.heap(g.st, hn, hs), m.T, fmt.Sprintf("((as const (Array %s Bool)) false)", g.sortOf(mt.Key()))))
+		}
 		g.vals[x] = Val{T: "0", S: "Int"}
 	case *ssa.Slice:
 		g.sliceOp(x)
@@ -1403,6 +1404,48 @@ func (g *Gen) lookup(x *ssa.Lookup) {
 	} else {
 		g.vals[x] = rv
 	}
+}
+
+// next: one step of a range over a map (or string). For a map the iteration
+// produces each key exactly once: ok ==> the key is in the map and was not
+// produced before; !ok ==> every key of the map has been produced.
+func (g *Gen) next(x *ssa.Next) {
+	tt := x.Type().(*types.Tuple)
+	var tup []Val
+	for i := 0; i < tt.Len(); i++ {
+		if bt, inv := tt.At(i).Type().(*types.Basic); inv && bt.Kind() == types.Invalid {
+			tup = append(tup, Val{T: "0", S: "Int"})
+			continue
+		}
+		v := g.freshVal("next", tt.At(i).Type())
+		g.assume(g.typeInv(v, g.st))
+		tup = append(tup, v)
+	}
+	g.vals[x] = Val{Tup: tup}
+	r, ok := x.Iter.(*ssa.Range)
+	if !ok || x.IsString {
+		return
+	}
+	mt, ok := r.X.Type().Underlying().(*types.Map)
+	if !ok || tup[1].S == "" || tup[1].T == "0" {
+		return
+	}
+	m := g.val(r.X)
+	okv, key := tup[0].T, tup[1].T
+	hs := g.mapHasSort(mt)
+	has := sx("select", g.heap(g.st, mapHeapName(mt, "has"), hs), m.T)
+	visH := g.heap(g.st, mapHeapName(mt, "vis"), hs)
+	vis := sx("select", visH, m.T)
+	g.assume(implies(okv, and(not(sx("=", m.T, "0")), sx("select", has, key), not(sx("select", vis, key)))))
+	ks := g.sortOf(mt.Key())
+	hasC := g.define("mhas", "(Array "+ks+" Bool)", has)
+	visC := g.define("mvis", "(Array "+ks+" Bool)", vis)
+	g.assume(implies(not(okv), fmt.Sprintf("(forall ((k %s)) (! (=> (select %s k) (select %s k)) :pattern ((select %s k))))", ks, hasC, visC, hasC)))
+	if len(tup) > 2 && tup[2].S != "" && tup[2].T != "0" {
+		val := sx("select", sx("select", g.heap(g.st, mapHeapName(mt, "v"), g.mapValSort(mt)), m.T), key)
+		g.assume(implies(okv, sx("=", tup[2].T, val)))
+	}
+	g.setHeap(g.st, mapHeapName(mt, "vis"), hs, sx("store", visH, m.T, sx("ite", okv, sx("store", vis, key, "true"), vis)))
 }
 
 func (g *Gen) mapUpdate(x *ssa.MapUpdate) {
